@@ -87,4 +87,9 @@ DrawOK(e, k, site, len) == /\ Len(e.draws) >= k
                            /\ e.draws[k].site = site
                            /\ Len(e.draws[k].used) = len
 NoDraws(e) == Len(e.draws) = 0
+\* index of the first logged draw at a site (0 if none): the model can still follow the specification when the
+\* implementation drew more than it should (the surplus is reported by the C15.draw tag)
+DrawIdx(e, site, len) ==
+    LET idx == {k \in 1..Len(e.draws) : e.draws[k].site = site /\ Len(e.draws[k].used) = len}
+    IN IF idx = {} THEN 0 ELSE CHOOSE k \in idx : \A j \in idx : k <= j
 =============================================================================
